@@ -123,4 +123,33 @@ own grids: `Σ_p ⟨f_p, g_p⟩` (grids: `grids p = (n_p, t_p)`). -/
 def prodInner (P : ℕ) (n : ℕ → ℕ) (t : ℕ → ℕ → ℚ) (f g : ℕ → ℕ → ℚ) : ℚ :=
   ∑ p ∈ range P, inner (n p) (t p) (f p) (g p)
 
+/-! ## Gram (inner-product) route: `_fit_inner_product_multivariate`, `_transform_innpro`,
+`_transform_numerical_integration_multivariate`
+
+`D p` are the curves `data_uni._data_inpro.values` of component `p` (the data centred by
+`inner_product`, whatever mean was subtracted), `σ2 p` the noise variance subtracted on the diagonal
+of the component Gram matrix. -/
+
+/-- `MultivariateFunctionalData.inner_product`: `Σ_p (⟨D_p[i], D_p[k]⟩ − σ_p²·[i = k])`. -/
+def gramRouteMatrix (P : ℕ) (n : ℕ → ℕ) (t : ℕ → ℕ → ℚ) (D : ℕ → ℕ → ℕ → ℚ) (σ2 : ℕ → ℚ) (i k : ℕ) : ℚ :=
+  ∑ p ∈ range P, (basisGram (n p) (t p) (D p) i k - if i = k then σ2 p else 0)
+
+/-- `np.matmul(D_p.T, eigenvectors)[:, k]`: numerator of eigenfunction `k`, component `p`. -/
+def gramEigenNum (N : ℕ) (Dp : ℕ → ℕ → ℚ) (v : ℕ → ℕ → ℚ) (k u : ℕ) : ℚ := ∑ i ∈ range N, v i k * Dp i u
+
+/-- `… / np.sqrt(eigenvalues)`, `ρ k` standing for `√l_k`. -/
+def gramEigenfunction (N : ℕ) (ρ : ℕ → ℚ) (Dp : ℕ → ℕ → ℚ) (v : ℕ → ℕ → ℚ) (k u : ℕ) : ℚ :=
+  gramEigenNum N Dp v k u / ρ k
+
+/-- `results["eigenvalues"] = eigenvalues / data.n_obs`. -/
+def gramEigenvalue (N : ℕ) (l : ℕ → ℚ) (k : ℕ) : ℚ := l k / N
+
+/-- `_transform_innpro`: `√(n_obs·λ_k)·v_ik = √l_k · v_ik`. -/
+def innProScores (ρ : ℕ → ℚ) (v : ℕ → ℕ → ℚ) (i k : ℕ) : ℚ := ρ k * v i k
+
+/-- `_transform_numerical_integration_multivariate` for one (centred, rescaled) observation `x`:
+`Σ_p ⟨x_p, ψ_k^{(p)}⟩`. -/
+def numIntScore (P : ℕ) (n : ℕ → ℕ) (t : ℕ → ℕ → ℚ) (x : ℕ → ℕ → ℚ) (ψ : ℕ → ℕ → ℕ → ℚ) (k : ℕ) : ℚ :=
+  prodInner P n t x (fun p => ψ p k)
+
 end FDA.MFPCA
